@@ -151,6 +151,10 @@ pub enum Lay {
     Perm,
     /// window into a larger array (one extra element on both sides of every axis)
     Window,
+    /// last axis stored in reverse (negative stride on the innermost axis; contiguous, not standard layout)
+    RevLast,
+    /// every axis stored in reverse (all strides negative; contiguous in memory)
+    Neg,
 }
 
 impl Lay {
@@ -161,6 +165,8 @@ impl Lay {
             "rev" => Lay::Rev,
             "perm" => Lay::Perm,
             "w" => Lay::Window,
+            "revl" => Lay::RevLast,
+            "neg" => Lay::Neg,
             _ if s.starts_with('s') => {
                 Lay::Strided(s[1..].parse().map_err(|_| format!("bad layout {s}"))?)
             }
@@ -193,12 +199,12 @@ impl<T: Scalar> Stored<T> {
     pub fn filled(lay: Lay, shape: &[usize], fill: T) -> Self {
         let r = shape.len();
         let lay = match lay {
-            Lay::Strided(_) | Lay::Rev if r == 0 => Lay::C,
+            Lay::Strided(_) | Lay::Rev | Lay::RevLast | Lay::Neg if r == 0 => Lay::C,
             Lay::Perm if r < 2 => Lay::C,
             l => l,
         };
         let base = match lay {
-            Lay::C | Lay::Rev => ArrayD::from_elem(IxDyn(shape), fill),
+            Lay::C | Lay::Rev | Lay::RevLast | Lay::Neg => ArrayD::from_elem(IxDyn(shape), fill),
             Lay::F => ArrayD::from_elem(IxDyn(shape).f(), fill),
             Lay::Strided(k) => {
                 let mut s = shape.to_vec();
@@ -229,6 +235,12 @@ impl<T: Scalar> Stored<T> {
             Lay::C | Lay::F => {}
             Lay::Strided(k) => v.slice_axis_inplace(Axis(0), Slice::new(0, None, k.max(1) as isize)),
             Lay::Rev => v.invert_axis(Axis(0)),
+            Lay::RevLast => v.invert_axis(Axis(r - 1)),
+            Lay::Neg => {
+                for ax in 0..r {
+                    v.invert_axis(Axis(ax));
+                }
+            }
             Lay::Perm => v.swap_axes(r - 1, r - 2),
             Lay::Window => {
                 for ax in 0..r {
@@ -247,6 +259,12 @@ impl<T: Scalar> Stored<T> {
             Lay::C | Lay::F => {}
             Lay::Strided(k) => v.slice_axis_inplace(Axis(0), Slice::new(0, None, k.max(1) as isize)),
             Lay::Rev => v.invert_axis(Axis(0)),
+            Lay::RevLast => v.invert_axis(Axis(r - 1)),
+            Lay::Neg => {
+                for ax in 0..r {
+                    v.invert_axis(Axis(ax));
+                }
+            }
             Lay::Perm => v.swap_axes(r - 1, r - 2),
             Lay::Window => {
                 for ax in 0..r {
